@@ -118,6 +118,8 @@ pub struct World {
     pub lock_term: u64,
     /// C10 suffix only (never set in explored states): MsgSnapshot travels on a slow side
     /// channel that takes this many rounds (0 = same channel as everything else)
+    /// prefix only: settle does not apply (Action::HoldApply)
+    pub hold_apply: bool,
     pub slow_snap: usize,
     /// C10 suffix only: snapshots on the slow channel (from, to, message, rounds left)
     pub slow_lane: Vec<(u8, u8, Message, usize)>,
@@ -358,6 +360,7 @@ impl World {
             in_prefix: true,
             lock_phase: false,
             lock_term: 0,
+            hold_apply: false,
             slow_snap: 0,
             slow_lane: vec![],
             snap_msgs_delivered: 0,
@@ -1382,6 +1385,10 @@ impl World {
                 self.net.retain(|(f, t), _| *f != id && *t != id);
                 true
             }
+            Action::HoldApply(on) => {
+                self.hold_apply = on;
+                true
+            }
             Action::SetPrio(id, p) => {
                 let l = self.nodes[id as usize - 1].live.as_mut().unwrap();
                 l.rn.raft.set_priority(p as i64);
@@ -1731,7 +1738,7 @@ impl World {
                     again = true;
                 }
             }
-            while self.live(i).map(|l| !l.to_apply.is_empty() || l.snap_ack_pending).unwrap_or(false) {
+            while !self.hold_apply && self.live(i).map(|l| !l.to_apply.is_empty() || l.snap_ack_pending).unwrap_or(false) {
                 if !self.apply_inner(&Action::ApplyNext(i as u8 + 1), ctx) {
                     return None;
                 }
